@@ -14,10 +14,14 @@ def main(tier, seed):
         for keep in (None, True):
             jobs.append(("props.flow", "run_scenario", (n, dict(policy="fifo", k=1, keep=keep, kinds=["Next", "Abort", "Skip", "Error", "Submit"], oracles=("c17",), targets="acts",
                                                                  skip_running_acts=True, max_paths=300 if tier == "quick" else 3000, seed=seed), "C17")))
+    for keep in (None, True):
+        for pol in ("fifo", "lifo"):
+            jobs.append(("props.subflow", "retention", ("C17", pol, keep, 40 if tier == "quick" else 400)))
     c.run_jobs(jobs)
     return c.finish(
         rule="one path = scenario x keep_processes in {default, true} x one symbolic client action (complete / abort / skip / error / submit; back and push histories are recorded under C03) x answer-all; after the terminal event the rows of "
-             "the process are read back through the real memory collections; without keep_processes one more action is aimed at the finished process",
+             "the process are read back through the real memory collections; without keep_processes one more action is aimed at the finished process; "
+             "plus: a parent calling a sub-process (child ended by complete / error / abort / skip): the child's rows are gone once it has delivered its terminal event while the running parent's stay",
         assumptions=ASSUME + ["memory backend only; the SQLite execution of the delete/query is outside the claim",
                              "rows of other processes and message rows: covered by the two-process runs of C13 (isolation oracle), not here"],
         bounds=dict(scenarios=names, keep_processes=["default", True]))
